@@ -194,7 +194,7 @@ func (a *scriptedAdapter) worker(name string) {
 			at.Outcome = "later"
 			secs := T.Choose(c.LaterMaxS+1, "sa-later-secs")
 			err = errors.NewRetriableLaterError(fmt.Errorf("scripted: come back later for %s", j.t.Oid), strconv.Itoa(secs))
-			a.w.Srv.Deferrals = append(a.w.Srv.Deferrals, &sim.Deferral{At: time.Since(a.w.Start), Kind: "adapter", Oids: []string{j.t.Oid}, Until: time.Since(a.w.Start) + time.Duration(secs)*time.Second, Header: strconv.Itoa(secs)})
+			a.w.Srv.Deferrals = append(a.w.Srv.Deferrals, &sim.Deferral{ReqSeq: -1, Step: s.Step, At: time.Since(a.w.Start), Kind: "adapter", Oids: []string{j.t.Oid}, Until: time.Since(a.w.Start) + time.Duration(secs)*time.Second, Header: strconv.Itoa(secs)})
 		case a.w.Srv.Hit("", c.Unprocessable, "adapter.422"):
 			at.Outcome = "422"
 			err = errors.NewUnprocessableEntityError(fmt.Errorf("scripted: 422 for %s", j.t.Oid))
